@@ -67,6 +67,10 @@ class BalancedMoveRule(BaseRule):
             if self.has_add_siblings(node):
                 return None
 
+            # Both sides cannot be divided by zero
+            if node.value is None or node.value == 0:
+                return None
+
             return _TYPE_CONST_OF_MULTIPLY
 
         if isinstance(node.parent, AddExpression):
